@@ -10,7 +10,7 @@ from hypothesis import strategies as st
 from harness.loader import load
 from harness.runner import Part
 from harness import values as V
-from harness.opaque import OpaqueA, OpaqueB
+from harness.opaque import OpaqueA, OpaqueB, OpaqueSub
 from harness.refmodel import ref_dtype, join_kind, leq_kind
 
 S = load()
@@ -33,8 +33,8 @@ ASSUMPTIONS = [
 ]
 
 REPS = [None, True, 1, 1.5, 1j, "s", b"b", date(2020, 1, 2), datetime(2020, 1, 2, 3, 4), Decimal("1"),
-        OpaqueA(1), OpaqueB(1), [1], (1,), {"k": 1}, bytearray(b"b"), Fraction(1, 2)]
-KINDS = [bool, int, float, complex, str, bytes, date, datetime, Decimal, OpaqueA, OpaqueB, list, tuple, dict, object, bytearray, Fraction]
+        OpaqueA(1), OpaqueB(1), [1], (1,), {"k": 1}, bytearray(b"b"), Fraction(1, 2), OpaqueSub(1)]
+KINDS = [bool, int, float, complex, str, bytes, date, datetime, Decimal, OpaqueA, OpaqueB, list, tuple, dict, object, bytearray, Fraction, OpaqueSub]
 
 
 def _dt(x):
